@@ -93,7 +93,7 @@ def build(shape, size, rng):
         return font, samples
     if shape == "classes":
         k = size
-        font, names = make_font(2 * k * 2 + 1)
+        font, names = make_font(2 * k * 2 + 1 + 2)  # two unclassified glyphs at the end
         gm = font.getReverseGlyphMap()
         # class c1 of first glyphs: {names[1+2c], names[2+2c]}; second classes likewise in the upper half
         first = [(names[1 + 2 * c], names[2 + 2 * c]) for c in range(k)]
@@ -104,6 +104,13 @@ def build(shape, size, rng):
             for b in range(k):
                 pairs[(first[a], second[b])] = (B.buildValue({"XAdvance": val(a, b)}), None)
         st = B.buildPairPosClassesSubtable(pairs, gm)
+        # valid, and what the subsetter and TTX import leave behind: explicit class-0 entries - for a glyph
+        # below the first classified one and for one above the last - in both class definitions, inserted
+        # after the real entries (dict order is what a careless writer would walk)
+        st.ClassDef1.classDefs[names[0]] = 0
+        st.ClassDef1.classDefs[names[len(names) - 1]] = 0
+        st.ClassDef2.classDefs[names[len(names) - 2]] = 0
+        st.ClassDef2.classDefs[names[base2 - 1]] = 0  # the glyph just below the first one ClassDef2 classifies
         # valid but unusual: ClassDef1 classifies glyphs that the subtable's Coverage does not list
         # (as in subtables produced by a split that share one ClassDef1): such glyphs get no kerning here
         uncovered = set(first[a][1] for a in range(0, k, 7))
@@ -327,6 +334,28 @@ def build(shape, size, rng):
                 bx, by = 100 + b + c, 300 + (b * 7 + c) % 400
                 mx, my = 10 + c, 20 + 2 * c
                 out.append(([1 + b, 1 + nb + c], ("off1", (bx - mx - ADV, by - my))))
+            return out
+
+        return font, samples
+    if shape == "marknull":
+        # two mark-to-base lookups over the same bases, marks and anchor coordinates, whose base arrays
+        # differ only in WHICH anchor slots are NULL (mirrored): serialising must keep them apart
+        nb = size
+        font, names = make_font(1 + nb + 2)
+        gm = font.getReverseGlyphMap()
+        top, bot = names[1 + nb], names[2 + nb]
+        marks = {top: (0, B.buildAnchor(100, 600)), bot: (1, B.buildAnchor(100, -50))}
+        l1 = {names[1 + b]: {(b % 2): B.buildAnchor(250, 500)} for b in range(nb)}
+        l2 = {names[1 + b]: {1 - (b % 2): B.buildAnchor(250, 500)} for b in range(nb)}
+        lookups = [B.buildLookup(B.buildMarkBasePos(dict(marks), l1, gm)), B.buildLookup(B.buildMarkBasePos(dict(marks), l2, gm))]
+        assemble(font, "GPOS", lookups, "mark")
+
+        def samples(r, kk=80):
+            out = []
+            for _ in range(kk):
+                b, c = r.randrange(nb), r.randrange(2)
+                mx, my = (100, 600) if c == 0 else (100, -50)
+                out.append(([1 + b, 1 + nb + c], ("off1", (250 - mx - ADV, 500 - my))))
             return out
 
         return font, samples
